@@ -403,7 +403,7 @@ class Polygon(Shape2D):
         c_x = np.sum((verts[:, 0] + verts_shifted[:, 0]) * delta_term)
         c_y = np.sum((verts[:, 1] + verts_shifted[:, 1]) * delta_term)
 
-        in_plane_centroid = np.array([c_x, c_y, 0]) / (6 * self.area)
+        in_plane_centroid = np.array([c_x, c_y, 0]) / (6 * self.signed_area)
 
         # We've rotated into the plane, so the z position of all vertices
         # should be equal. We take the average to improve numerical stablity.
